@@ -5,6 +5,8 @@ From Coq Require Import List ZArith Bool.
 From Coq Require Import Permutation.
 From RtoscV Require ArgVal.AvModel.
 From RtoscV Require Import Save.TopoModel Save.SaveModel Save.SaveProofs Save.RoundProofs Save.RoundFull Save.PermApp Save.SortStage Save.EqStage Save.SaveRegress.
+From RtoscV Require Import Ports.WalkModel Ports.DispatchModel Ports.TreeProofs Ports.DispatchWalk Ports.NamesModel.
+From RtoscV Require Import Save.TreeApp Save.DispatchStage Save.TreeStage.
 Import ListNotations.
 Local Open Scope Z_scope.
 
@@ -204,3 +206,104 @@ Theorem C12_rself_walker_offset_before_fix_refuted :
   old_end_before_fix false [47; 113; 47] [108; 101; 118; 101; 108] = Some [101; 108] /\
   old_end_before_fix false [47; 113; 47] [111; 110] = None.
 Proof. exact rself_walker_offset_before_fix_refuted. Qed.
+
+(* ======================================================================== *)
+(* Stage 5: the dispatch stage instantiated (C04 + C14)                        *)
+(* ======================================================================== *)
+(* Port trees [t : list pt] (Save/TreeApp.v): parameter leaves made by the macros C14
+   models (rParam rParamI rParamF rToggle rOption rString, rArrayI/F/T/Option "name#N"),
+   sub-tree ports of one component - embedded (rRecur), enumerated (rRecurs "name#N/"),
+   pointer (rRecurp, the object exists while a toggle of the parent table is on) -,
+   optionally "enabled by" a toggle of the parent table.  [app_of_tree t] is the abstract
+   application: one port per leaf under every expansion of the sub-trees above it.
+
+   The callback of a leaf (C14's model of the macro, SugarModel.step) stores exactly
+   what SaveModel.store says - clamp(v) (rLIMIT = clampK: the core of C14_clamp; for
+   char-sized variables after the wrap to 8 bits), the number of the first "map" entry
+   for a symbol, a string cut to the declared length (C14_string_trunc) - in the element
+   the address names (boils_idx).  [leaf_wf]: kind and '#N' as the macros combine them,
+   rString with length >= 1, float bounds that are no NaN; [arg_wf]: a float argument
+   that is no NaN, a string argument without NUL. *)
+Theorem C12_callback_stores : forall nm arr d path loc msg v v' old j,
+  leaf_wf arr d -> arg_wf v ->
+  store (leaf_port path arr d) v = Some v' ->
+  length old = p_len (leaf_port path arr d) -> (j < length old)%nat ->
+  match arr with Some _ => Z.to_nat (SM.boils_idx (cenv nm arr d) msg) = j | None => j = O end ->
+  exists zs o,
+    SM.step (ckind (ld_kind d) (is_some arr)) (cenv nm arr d) loc msg (enc_field (ld_kind d) old) [enc_arg v]
+      = Some (zs, o) /\
+    dec_elem (ld_kind d) zs j = Some v'.
+Proof. exact cb_store. Qed.
+
+(* One parameter message - the address of element k of port i, one argument the port's
+   specification accepts - dispatched at the root of the tree (C04's model of
+   Ports::dispatch with a location buffer; [tree_dispatch] runs the callbacks it logs in
+   order: sub-tree ports descend, a pointer sub-tree only while its switch is on, the
+   leaf runs its macro's callback on the state's entry for its address) does exactly
+   what SaveModel.set_elem does: the value lands in that element of that port and in no
+   other, after the callback's clamping; no match when a pointer on the way is NULL.
+   From C04_exactly_one_leaf (the callbacks are the chain along the leaf's index path,
+   each loc the address so far) through C09's reaches_addressed.
+   Side conditions: names of the macro shape, siblings not clashing ([names_ok], decidable);
+   C04's [tree_ok] (holds for every tree whose tables are served by the linear scan:
+   tree_ok_nohash); distinct addresses; a state with one value per element ([shaped]:
+   kept by every accepted message, shaped_set_elem). *)
+Theorem C12_dispatch_elem : forall hp tid (t : list pt),
+  names_ok (sports_of t) = true -> tree_ok (to_tree hp tid (sports_of t)) ->
+  Forall pt_wf t -> NoDup (map p_path (app_of_tree t)) ->
+  forall i k v s,
+    (i < length (app_of_tree t))%nat -> (k < p_len (port_at (app_of_tree t) i))%nat ->
+    p_nodef (port_at (app_of_tree t) i) = false ->
+    arg_wf v -> store (port_at (app_of_tree t) i) v <> None -> shaped (app_of_tree t) s ->
+    tree_dispatch hp tid t (elem_addr (port_at (app_of_tree t) i) k) v s
+    = set_elem (app_of_tree t) s i k v.
+Proof. exact dispatch_elem. Qed.
+
+(* The lines of the saved file, in any order, handed to the tree from a default-initialised
+   instance (an array line element by element): the run is apply_all's - the former
+   premise "C04 + C14" for every run the pipeline makes. *)
+Theorem C12_dispatch_stage : forall hp tid (t : list pt) st,
+  names_ok (sports_of t) = true -> tree_ok (to_tree hp tid (sports_of t)) -> Forall pt_wf t ->
+  full_conditions (app_of_tree t) st -> comparable (app_of_tree t) st -> cstrings st ->
+  forall ls, (forall l, In l ls -> In l (save_lines (app_of_tree t) st)) ->
+    real_apply (fun _ l s => tree_apply_line hp tid t l s) (app_of_tree t) ls (initial (app_of_tree t))
+    = real_apply (fun a l s => apply_line a l s) (app_of_tree t) ls (initial (app_of_tree t)).
+Proof. exact dispatch_stage. Qed.
+
+(* C12_roundtrip through the pipeline for the application of a port tree; loading hands
+   the sorted lines to Ports::dispatch on the tree.  _partial: the stages still assumed
+   are the walk (C09: reaches exactly the live ports) and print/scan (C10: a printed body
+   scans back line by line); beside them [full_conditions], [comparable] (no NaN),
+   [cstrings] (strings without NUL), [declared] (decidable, C13_declared_computed) and an
+   acyclic dependency scan. *)
+Theorem C12_roundtrip_pipeline_tree_partial :
+  forall text walk print_lines scan_text hp tid (t : list pt) apropos fuel F st ps,
+    let a := app_of_tree t in
+    names_ok (sports_of t) = true -> tree_ok (to_tree hp tid (sports_of t)) -> Forall pt_wf t ->
+    stage_hypotheses2 text walk print_lines scan_text a st ->
+    full_conditions a st -> comparable a st -> cstrings st ->
+    declared a apropos ->
+    pushes line apropos fuel (msgs (save_lines a st)) = Some ps -> ranked ps ->
+    exists fin,
+      real_load text scan_text (fun _ l s => tree_apply_line hp tid t l s)
+                (fun _ ls => sort_by_load_order apropos fuel ls) a
+                (real_save text walk (av_eq_real F) print_lines a st) (initial a)
+      = Some (Z.of_nat (length (save_lines a st)), fin) /\
+      forall q, (q < length a)%nat -> p_nodef (port_at a q) = false -> live a st q = true ->
+                restored_val (port_at a q) (val_at st q) (val_at fin q).
+Proof. exact roundtrip_pipeline_tree. Qed.
+
+(* { rToggle(e), rRecurp(s) -> { rParamI(x) } existing while e is on, rArrayI(t, 3) }: the
+   hypotheses hold; the saved lines handed to the tree with the switch first restore the
+   state, the line below the sub-tree in front of its switch reaches no port. *)
+Theorem C12_pipeline_tree_nonvacuous :
+  let a := app_of_tree fx_tree in
+  names_ok (sports_of fx_tree) = true /\
+  tree_ok (to_tree no_hash_search one_id (sports_of fx_tree)) /\ Forall pt_wf fx_tree /\
+  full_conditions a fx_state /\ comparable a fx_state /\ cstrings fx_state /\
+  declared a apropos_fx /\
+  (exists ps, pushes line apropos_fx 20 (msgs (save_lines a fx_state)) = Some ps /\ ranked ps) /\
+  real_apply (fun _ l s => tree_apply_line no_hash_search one_id fx_tree l s) a
+             (map (the_line a fx_state) [0; 2; 1]%nat) (initial a) = (fx_state, true) /\
+  tree_apply_line no_hash_search one_id fx_tree (the_line a fx_state 1) (initial a) = None.
+Proof. exact pipeline_tree_nonvacuous. Qed.
